@@ -303,12 +303,12 @@ def emit(family, dev="", shards=1):
     return out, rs
 
 
-def validate(traces, dev="", attr_mode="seq", batch=4000):
+def validate(traces, dev="", attr_mode="seq", batch=20000):
     """(I->S) TLC decides for each recorded load whether it is a behaviour of LoaderResolve.
     -> ([{reached, len, accepted}] per trace, [TLCResult])"""
     if not traces:
         return [], []
-    nb = 1 if len(traces) < 600 else max(min(tlc.NCPU, len(traces) // 300), (len(traces) + batch - 1) // batch)
+    nb = 1 if len(traces) < 600 else max(tlc.NCPU, (len(traces) + batch - 1) // batch)
     size = (len(traces) + nb - 1) // nb
     batches = [traces[i:i + size] for i in range(0, len(traces), size)]
     work = tlc.scratch("vt-restr-")
